@@ -22,7 +22,7 @@ ASSUME = ["`lorem` is not used (its randomness is the only documented impurity)"
 
 ABBRS_M = ['ul>li*2', 'ul>li*', 'p{$#}*', 'a', 'a[href=x]{t}', 'div.b_m>.-e', 'ul.nav>.-item*2>._active', 'div.b>div.-e>div.-e', 'bad', 'bad2>p', 'x1+bad', 'a[', 'p{', '(a',
            'foo', 'foo.a.b', 'p{${v}}', 'vare>p', 'tm', '!', 'table>.r>.c', 'ul>li.i$*3', 'a:link', 'select>.o', 'ul>li*5', 'x1*4>x2*2', '', '()', '()*3', '(())']
-ABBRS_C = ['m10', 'p10-20', 'm', 'p', 'bd', 'c#fc0', 'fz1.5', 'lh2', 'z10', 'm10+p', 'bad', 'xx', 'm-a', 'pos:a', 'trf:rx', 'w100p', 'mah', 'p!', '(', 'm10-']
+ABBRS_C = ['m10', 'p10-20', 'm', 'p', 'bd', 'c#fc0', 'fz1.5', 'lh2', 'z10', 'm10+p', 'bad', 'xx', 'm-a', 'pos:a', 'trf:rx', 'w100p', 'mah', 'p!', '(', 'm10-', 'trf-s(2, 3)', 'trf-s(1)', 'trf-s', 'trf:r(45deg)', 'trf:r']
 
 CFG_M = [
     {},
@@ -275,6 +275,15 @@ def pair_cases():
                                  {'abbr': a1, 'cfg': 0, 'via': 'dict', 'cache': 0 if shared else None}]}
 
 
+    # one stylesheet config, one cache shared by all three calls: every ordered pair of the stylesheet abbreviation pool (tokens of the cached
+    # snippet table must not be altered by what one abbreviation writes into them — function-call arguments, units, colours)
+    for a1 in ABBRS_C:
+        for a2 in ABBRS_C:
+            if a1 != a2:
+                yield {'cfgs': [CFG_C[0]], 'ncaches': 1, 'steps': [{'abbr': a1, 'cfg': 0, 'via': 'dict', 'cache': 0}, {'abbr': a2, 'cfg': 0, 'via': 'dict', 'cache': 0},
+                                                                   {'abbr': a1, 'cfg': 0, 'via': 'dict', 'cache': 0}]}
+
+
 def shard_pairs(ctx, shard, nshards):
     for case in core.sharded(pair_cases(), shard, nshards):
         ctx.rec.run_case(CHECKS, 'history', case)
@@ -286,5 +295,5 @@ def shard_random(ctx, shard, nshards, n):
 
 def run(ctx):
     ctx.run_parallel('shard_pairs')
-    ctx.exhaustive('every ordered pair (then the first call again) of 36 markup steps × dict/Config and of 48 stylesheet steps with and without a shared cache')
+    ctx.exhaustive('every ordered pair (then the first call again) of 36 markup steps × dict/Config and of 48 stylesheet steps with and without a shared cache; every ordered pair of the %d stylesheet abbreviations on one config with one shared cache' % len(ABBRS_C))
     ctx.run_parallel('shard_random', extra=(ctx.pick(40, 600),))
